@@ -26,9 +26,12 @@ def roundtrip(m):
     return e1, e2, s1, s2, m3.to_dict()
 
 
-def _text_constant(n, c0, c1, c2):
-    # a TEXT cell (as the workbook reader creates it) whose content may look like a formula
-    v = (ALPHA[c0] + ALPHA[c1] + ALPHA[c2])[:n]
+PREFIXES = ['', '#N/A', '#REF!', ' #DIV/0!', '#VALUE! x', '=A1', '#NULL!', 'TRUE']
+
+
+def _text_constant(n, c0, c1, c2, p=0):
+    # a TEXT cell (as the workbook reader creates it) whose content may look like a formula or an error value
+    v = PREFIXES[p] + (ALPHA[c0] + ALPHA[c1] + ALPHA[c2])[:n]
     m = formulas.ExcelModel()
     c = Cell(P + 'A1', v, check_formula=False)
     c.add(m.dsp)
@@ -45,12 +48,14 @@ def _text_constant(n, c0, c1, c2):
 
 
 def text_constant_ok(n0: bool, n1: bool, a0: bool, a1: bool, a2: bool, b0: bool, b1: bool, b2: bool,
-                     c0: bool, c1: bool, c2: bool) -> bool:
+                     c0: bool, c1: bool, c2: bool, p0: bool, p1: bool, p2: bool) -> bool:
     """
     pre: sel(a0, a1, a2) < 6 and sel(b0, b1, b2) < 6 and sel(c0, c1, c2) < 6
+    pre: sel(p0, p1, p2) == 0 or sel(n0, n1) <= 1
     post: _
     """
-    return concrete(_text_constant, sel(n0, n1), sel(a0, a1, a2), sel(b0, b1, b2), sel(c0, c1, c2))
+    # text of length <= 3 over = " a 1 blank #, or one of 7 prefixes (error literals, a reference, a logical) plus <= 1 character
+    return concrete(_text_constant, sel(n0, n1), sel(a0, a1, a2), sel(b0, b1, b2), sel(c0, c1, c2), sel(p0, p1, p2))
 
 
 CONSTS = [5, -1.5, 0, True, False, 'x', '', ' a ', '7', 'TRUE', '#N/A', '#EMPTY', '=#DIV/0!', '=#REF!', 1e+20, 'a"b']
@@ -82,7 +87,8 @@ def _model(i, j, s):
     d[sh_ + 'Z9'] = '=%sA1' % sh_
     m = formulas.ExcelModel().from_dict(d).finish(complete=False)
     e1, e2, s1, s2, e3 = roundtrip(m)
-    return e1 == e2 == e3 and s1 == s2 and set(e1) == set(d)
+    # every entry written is exported; what the export adds are the blank cells the formulas read
+    return e1 == e2 == e3 and s1 == s2 and set(d) <= set(e1) and all(e1[k] == '#EMPTY' for k in set(e1) - set(d))
 
 
 def model_ok(i0: bool, i1: bool, i2: bool, j0: bool, j1: bool, j2: bool, s0: bool, s1: bool, s2: bool) -> bool:
